@@ -3,6 +3,8 @@
 package zzverif
 
 import (
+	chf_context "github.com/free5gc/chf/internal/context"
+	"reflect"
 	"encoding/json"
 	"fmt"
 	"net/url"
@@ -253,7 +255,7 @@ func (w *World) execInto(supis []string, h *HistRun, ops []Op, snapFrom int, wit
 		st.Supi = supi
 		var se *Sess
 		ref := op.Ref
-		if ref == "" && op.K != "create" && op.K != "recharge" && op.K != "fill" && op.K != "http" && op.S < len(h.Sess) {
+		if ref == "" && op.K != "create" && op.K != "recharge" && op.K != "fill" && op.K != "jump" && op.K != "http" && op.S < len(h.Sess) {
 			se = h.Sess[op.S]
 			ref = se.Ref
 			if op.Supi == "" {
@@ -293,6 +295,16 @@ func (w *World) execInto(supis []string, h *HistRun, ops []Op, snapFrom int, wit
 					h.Sess = append(h.Sess, &Sess{U: op.U, Supi: supi, Ref: refOf(r.Location), Cons: fo.Cons, Live: true, LastGrant: map[int32]int32{}, CID: fo.CID, CreatedAt: i})
 				}
 			}
+			se = nil
+		case "jump":
+			// the global record counter after 2^32 further records (a state that only a long-lived process reaches;
+			// entered directly, as a non-initial start): under the context lock, by reflection whatever its width
+			self := chf_context.GetSelf()
+			self.Lock()
+			f := reflect.ValueOf(self).Elem().FieldByName("LocalRecordSequenceNumber")
+			f.SetUint(f.Uint() + 1<<32)
+			self.Unlock()
+			st.Resp.Code = 204
 			se = nil
 		case "update":
 			st.Resp = w.Do("POST", ccBase+"/chargingdata/"+url.PathEscape(ref)+"/update", body, nil)
